@@ -87,6 +87,9 @@ var('ok_c03_single_write_call', 'C03', Y,
 var('ok_c03_plain_userwarning', 'C03', Y, ('            warnings.warn("Nothing to be appended!", PydlutilsUserWarning)', '            warnings.warn("Nothing to be appended!", UserWarning)'))
 var('ok_c03_unicode_string_columns', 'C03', Y, ('                d = "S{0:d}".format(self.char_length(structure, c))', '                d = "U{0:d}".format(self.char_length(structure, c))'))
 var('ok_c03_write_via_tempfile_rename', 'C03', Y,
+    ("        with open(newfile, 'w') as f:\n            f.write(contents)\n", "        import tempfile\n        _fd, _tmp = tempfile.mkstemp(dir=os.path.dirname(newfile) or '.', prefix='.yanny-')\n        with os.fdopen(_fd, 'w') as f:\n            f.write(contents)\n        os.rename(_tmp, newfile)\n"))
+# the same idea with a FIXED temporary name clobbers a bystander called <target>.tmp: not benign
+mut('c03_write_via_fixed_tmp_name', 'C03', Y,
     ("        with open(newfile, 'w') as f:\n            f.write(contents)\n", "        with open(newfile + '.tmp', 'w') as f:\n            f.write(contents)\n        os.rename(newfile + '.tmp', newfile)\n"))
 var('ok_c03_int64_columns_widened', 'C03', Y, ("        dtmap = {'short': 'i2', 'int': 'i4', 'long': 'i8', 'float': 'f',\n                 'double': 'd'}\n        for c in self.columns(structure):", "        dtmap = {'short': 'i4', 'int': 'i8', 'long': 'i8', 'float': 'f',\n                 'double': 'd'}\n        for c in self.columns(structure):"))
 # ---- C20 mutants ---------------------------------------------------------------------
